@@ -23,7 +23,8 @@ func checkCase(sc SCase, expect string) map[string]interface{} {
 // C03: accept => reference-valid (one direction), IsMnemonicValid <=> nil,
 // and the accepted last-word set has exactly 2^(11-n/3) members.
 func runC03(c *Ctx) {
-	c.res.Rule = "per (language, word count, base sentence from the reference encoder over 8 representative entropies incl. 0/1/2 leading zero bytes): all 2048 last words, all (n-1)x2047 single substitutions (2 bases quick, 8 thorough; other bases 16 substitutes per position), all transpositions, every word count 0..27, foreign words at every position, token damage, separator damage; plus the same sentence validated under language A and then under B for all 90 ordered pairs (A-word sentences and sentences made only of words the two lists share); plus all byte strings of length <=3 over a 12-byte alphabet and (thorough) all token sequences of length 11..13 over 3 tokens. Oracle: implementation accepts => reference validator (golden dictionaries, checksum over ENT/8 bytes) accepts; accepted last words per prefix == 2^(11-n/3); IsMnemonicValid == (CheckMnemonic == nil). distinct_nontrivial = distinct (sentence, language) cases whose reference verdict is not 'valid' (i.e. cases where acceptance would be wrong)"
+	c.res.Rule = "per (language, word count, base sentence from the reference encoder over 8 representative entropies incl. 0/1/2 leading zero bytes): all 2048 last words, all (n-1)x2047 single substitutions (2 bases quick, 8 thorough; other bases 16 substitutes per position), all transpositions, every word count 0..27, foreign words at every position, token damage, separator damage; plus the same sentence validated under language A and then under B for all 90 ordered pairs (A-word sentences and sentences made only of words the two lists share); plus all byte strings of length <=3 over a 12-byte alphabet and (thorough) all token sequences of length 11..13 over 3 tokens. Oracle: implementation accepts => reference validator (golden dictionaries, checksum over ENT/8 bytes) accepts; accepted last words per prefix == 2^(11-n/3); IsMnemonicValid == (CheckMnemonic == nil). distinct_nontrivial = distinct (sentence, language) cases whose reference verdict is not 'valid' (i.e. cases where acceptance would be wrong) Cold-start phase: for each of the ten languages a fresh child process whose first library call is an encoding (resp. a validation) in that language, followed by all ten languages, compared with the reference (what depends on which language - or the zero value of Language - came first)."
+	defer c.coldStartPhase("bad")
 	c.Assume("golden lists are canonical", "NFKD form of the generated sentences is known by construction (golden words are NFKD-stable under CPython, separators map to U+0020)")
 	var mu sync.Mutex
 	accepted := map[string]int{}
